@@ -1,13 +1,16 @@
 CFG = {'assumptions': ['all bytes in [0,256)',
-                 'the reader never returns (0, nil): chunks are non-empty; its terminal condition is io.EOF or one injected error, '
-                 'delivered alone or together with the last bytes',
+                 'the reader is a finite list of chunks; (0, nil) Reads (empty chunks) are exercised by pbcmpl.Unmarshal/chunks and covered by the theorems, except an empty LAST chunk; '
+                 'its terminal condition is io.EOF or one injected error, delivered alone or together with the last bytes',
                  'the writer is well behaved: a Write that accepts fewer bytes than offered returns an error',
                  'BytesValue bodies are fed only as valid encodings (protobuf\'s general wire parser is not modelled); decode '
                  'failures are exercised with a legacy message whose Unmarshal rejects a marker byte'],
  'files': ['pbcmpl/pbcmpl.go', 'pbcmpl/header.go', 'pbcmpl/errors.go'],
  'go': {'pbcmpl.Unmarshal/stream': 'pbcmpl.Unmarshal called until the first error on one reader',
         'pbcmpl.ReadHeader/bytes': 'pbcmpl.ReadHeader',
-        'pbcmpl.Marshal/faulty': 'pbcmpl.Marshal into a writer that follows a script of (bytes accepted, fail?) responses'},
+        'pbcmpl.Marshal/faulty': 'pbcmpl.Marshal into a writer that follows a script of (bytes accepted, fail?) responses',
+        'pbcmpl.Marshal/encerr': 'widening: pbcmpl.Marshal of a message whose own Marshal method returns an error, into a scripted writer',
+        'pbcmpl.Unmarshal/chunks': 'widening: pbcmpl.Unmarshal until the first error on a reader that delivers an explicit chunk list, empty chunks = Read returning (0, nil) included',
+        'pbcmpl.Walk/bytes': 'widening: a user loop of pbcmpl.ReadHeader + io.ReadFull(GetBodySize) on arbitrary bytes (refuses hsize != 32, bsize < 0 or > 64 KiB)'},
  'rule': 'cases = EVERY cut point 0..len of frames (body lengths 0,1,2,31,32,33,100 [+127..700 thorough]) x terminal {EOF, injected '
          'error} x {alone, with the last chunk} x chunking {whole, 1 byte, random}, also behind a complete frame; writer failing '
          'after EVERY k (header write, body write, partial, error with full write); header fields hsize x bsize over '
